@@ -190,6 +190,16 @@ func genC10(rt *rapid.T) core.Scenario {
 		}
 		sc.Ops = append(sc.Ops, op)
 	}
+	if sc.TwoHandles && rapid.Bool().Draw(rt, "saveDance") {
+		// one subscription saved through both handles in turn, ending on a position the first handle has saved
+		// before: what a handle remembers about its own earlier saves says nothing about the database
+		sub := rapid.IntRange(0, 2).Draw(rt, "danceSub")
+		f1 := rapid.IntRange(-1, 6).Draw(rt, "danceFrom1")
+		f2 := rapid.IntRange(-1, 6).Draw(rt, "danceFrom2")
+		sc.Ops = append(sc.Ops,
+			C10Op{Kind: "save", Sub: sub, From: f1, H: 0}, C10Op{Kind: "save", Sub: sub, From: f2, H: 1},
+			C10Op{Kind: "save", Sub: sub, From: f1, H: 0}, C10Op{Kind: "load", Sub: sub, H: 1}, C10Op{Kind: "load", Sub: sub, H: 0})
+	}
 	if mode >= 8 && !sc.Store.InMemory { // scenario B (a shared-cache in-memory database locks whole tables: sequential use only)
 		nt := rapid.IntRange(2, 4).Draw(rt, "nTasks")
 		for t := 0; t < nt; t++ {
